@@ -24,9 +24,10 @@ return an arbitrary `m`.  Here the two events are refined:
 nobody else touches the rule's notes or the engine: running the prefix at `enter` and the search at `leave` is the
 same as spreading them over the interval.
 
-`guard = true` is `bot.go` with `fixes/C07-stale-thinker.diff`: a thinker that finds its context cancelled when it
-gets the lock returns without calling `GetMove` (its invocation is over, nobody listens to its channel).  `false` is
-the tree before that fix: such a thinker runs the whole of `GetMove` on a record that may have shrunk since.
+`guard = true` is `friendly.go` / `taktician.go` with `fixes/C07-stale-thinker.diff`: a `GetMove` that finds its
+context cancelled on entry returns the zero move at once (its `handleMove` invocation is over, nobody listens to its
+channel).  `false` is the tree before that fix: such a call runs the whole of `GetMove` on a record that may have
+shrunk since, or - after `PlayGame` returned and `GameOver` set `f.g = nil` - on no game at all.
 
 Outside: the `level` chat command (it replaces `f.ai` in mid-game), the opening-book wrapper (`wrapWithBook`),
 `Friendly.GameOver`'s survey `Tell`, real time (floors and deadlines are part of the `Action`, nobody waits). -/
@@ -107,6 +108,7 @@ structure St (σ χ : Type) where
   inside : Option Call               -- the call in progress (its thinker holds `moveLock`)
   wire : List Wire                   -- oldest first
   dead : Option Err                  -- a thinker goroutine panicked
+  entered : Nat                      -- how often `moveLock` was taken
   calls : List Call                  -- ghost: every call made, oldest first
   rets : List (Ret σ χ)              -- ghost: every call that returned, oldest first
 
@@ -150,19 +152,19 @@ def enter (c : Conf) (s : St σ χ) (k : Nat) (chk : CheckOracle) : St σ χ :=
   | some t =>
     if !lockFree s.b || t.st != .waiting || s.inside.isSome then s else
     if c.guard && t.cancelled then
-      -- the thinker finds `moveCtx.Err() != nil` and returns: lock taken and released, nothing else
-      { s with b := Bot.aiReturns c.bot (Bot.grant s.b k) k Bot.zeroMove }
+      -- `GetMove` finds `ctx.Err() != nil` and returns `tak.Move{}`: lock taken and released, nothing else
+      { s with b := Bot.aiReturns c.bot (Bot.grant s.b k) k Bot.zeroMove, entered := s.entered + 1 }
     else if s.b.status != .running then
       -- `PlayGame` has returned and its deferred `b.GameOver()` has set `f.g = nil` (`t.g = nil`): the first thing
       -- `GetMove` does with the record is a nil dereference
-      { s with b := Bot.grant s.b k, dead := some (.panic "GetMove after GameOver: f.g == nil") }
+      { s with b := Bot.grant s.b k, dead := some (.panic "GetMove after GameOver: f.g == nil"), entered := s.entered + 1 }
     else
     match glueCall c s.fpa s.b t chk with
-    | .error e => { s with b := Bot.grant s.b k, dead := some e }
+    | .error e => { s with b := Bot.grant s.b k, dead := some e, entered := s.entered + 1 }
     | .ok (fpa', act) =>
       let call : Call := { k := k, pos := t.pos, mine := t.mine, fpa := s.fpa, positions := s.b.positions,
                            moves := s.b.moves, chk := chk, fpa' := fpa', act := act }
-      { s with b := Bot.grant s.b k, fpa := fpa', inside := some call, calls := s.calls ++ [call],
+      { s with b := Bot.grant s.b k, fpa := fpa', inside := some call, calls := s.calls ++ [call], entered := s.entered + 1,
                wire := s.wire ++ resignWire act }
 
 /-- `GetMove` returns `m` -/
@@ -215,7 +217,7 @@ those of a fresh rule object -/
 def start (c : Conf) (secs : Int) (eng0 : σ) : St σ χ :=
   { b := startBot c secs
     fpa := match c.who with | .friendly (some var) => some (var, {}) | _ => none
-    eng := eng0, inside := none, wire := [], dead := none, calls := [], rets := [] }
+    eng := eng0, inside := none, wire := [], dead := none, entered := 0, calls := [], rets := [] }
 
 /-! ### the schedule of the correspondence harness
 
@@ -243,7 +245,7 @@ def spont [Inhabited χ] (c : Conf) (S : Searcher σ χ) (chk : CheckOracle) (s 
       let s' := leave c S s call.k default
       if s'.inside.isNone then some s' else none
   | none =>
-    if !lockFree s.b || s.calls.length ≥ callCap then none else
+    if !lockFree s.b || s.entered ≥ callCap then none else
     match firstWaiting s.b with
     | some k => some (enter c s k chk)
     | none => none
